@@ -503,7 +503,14 @@ impl<T: ObjectStore, M: SidecarMeta> SidecarStore<T, M> {
                     })?;
                 Ok::<_, Error>(Op::Put(Arc::new(val)))
             })
-            .await?;
+            .await;
+        let rt = match rt {
+            Ok(rt) => rt,
+            Err(err) => {
+                self.forget_after_unknown_outcome(location, &err).await;
+                return Err(err);
+            }
+        };
         let rt = rt.unwrap().value().clone();
 
         // The pointer switch committed; the replaced payload is garbage now.
@@ -515,6 +522,23 @@ impl<T: ObjectStore, M: SidecarMeta> SidecarStore<T, M> {
             self.best_effort_delete(&old).await;
         }
         Ok(rt)
+    }
+
+    /// Drops the cached metadata of `location` after a failed commit.
+    ///
+    /// Other than a known rejection, the error may come from the commit-point
+    /// put or delete itself, and then its outcome is unknown: the backend may
+    /// have applied it. A cache entry that survived would keep handing out the
+    /// superseded version and token (reads resolve the cache first and the old
+    /// payload still exists) while every conditional write is checked against
+    /// the backend and refused — for the whole cache TTL.
+    async fn forget_after_unknown_outcome(&self, location: &Path, err: &Error) {
+        if !matches!(
+            err,
+            Error::AlreadyExists { .. } | Error::Precondition { .. } | Error::NotFound { .. }
+        ) {
+            self.meta_cache.invalidate(location).await;
+        }
     }
 
     async fn best_effort_delete(&self, path: &Path) {
@@ -533,7 +557,8 @@ impl<T: ObjectStore, M: SidecarMeta> SidecarStore<T, M> {
     pub(crate) async fn delete_object(&self, location: &Path) -> Result<()> {
         let mut payload: Option<Path> = None;
         let payload_out = &mut payload;
-        self.meta_cache
+        let rt = self
+            .meta_cache
             .entry(location.clone())
             .and_try_compute_with(|_entry| async move {
                 // Resolve the payload from the backend, not from the
@@ -568,7 +593,11 @@ impl<T: ObjectStore, M: SidecarMeta> SidecarStore<T, M> {
                 }
                 Ok::<_, Error>(Op::Remove)
             })
-            .await?;
+            .await;
+        if let Err(err) = rt {
+            self.forget_after_unknown_outcome(location, &err).await;
+            return Err(err);
+        }
 
         if let Some(path) = payload {
             self.best_effort_delete(&path).await;
